@@ -170,12 +170,25 @@ class C04(spec.Spec):
 
     def family_case(self, item, out):
         kind, h = item
-        try:
-            base = self.fresh(h).doc
-        except (machine.NotEnabled, machine.NonConformance):
-            out.filters["base-not-buildable"] += 1
-            return
-        hh = ("family", self.ops(h))
+        if len(h) == 1 and isinstance(h[0], tuple) and h[0][0] == "mdoc":
+            # a base given as a model-level document (shapes the operation alphabet has no letter for: a membership
+            # record holding several members), realised through new_record like every variant
+            try:
+                base = rebuild.rebuild(h[0][1])
+            except Exception as e:
+                out.filters["mdoc-base-not-buildable:%s" % type(e).__name__] += 1
+                return
+            if observe.dobs_ordered(base) != h[0][1]:
+                out.filters["mdoc-base-built-differently"] += 1
+                return
+            hh = ("family", [repr(h[0])])
+        else:
+            try:
+                base = self.fresh(h).doc
+            except (machine.NotEnabled, machine.NonConformance):
+                out.filters["base-not-buildable"] += 1
+                return
+            hh = ("family", self.ops(h))
         mdoc = observe.dobs_ordered(base)
         fam = [("base", "same", base)]
         for fmt in ("json", "xml"):
@@ -411,6 +424,8 @@ class C04(spec.Spec):
         if hist and hist[0] == "family":
             import ast
             ops = [ast.literal_eval(x) for x in hist[1]]
+            if len(ops) == 1 and ops[0][0] == "mdoc":
+                return "# base document: provmc.rebuild.rebuild(%r)\n# then build the named variants (see detail) and compare with ==" % (ops[0][1],)
             return machine.render(ops, range(len(ops)), self.values) + "\n# then build the named variants (see detail) and compare with =="
         return spec.Spec.render(self, hist)
 
@@ -465,6 +480,20 @@ def main(tier, seed):
             base = prelude + scope_ops + (("el", scope, "entity", x), ("at", k, a), ("el", scope, "entity", x), ("at", k, b))
             items.append(("shape", base))
             items.append(("shape", base + (("el", scope, "entity", y), ("at", k, a))))
+    # memberships holding several members (one record, prov:entity multi-valued - how PROV-JSON's compact form loads):
+    # 2..4 members next to the member entities, at document level and in a bundle, alone and next to a second membership
+    P = PROV_URI
+    def ent(l):
+        return (P + "Entity", "http://a/" + l, ())
+    def mem(coll, ms):
+        return (P + "Membership", None, ((P + "collection", ("qn", "http://a/" + coll)),) + tuple((P + "entity", ("qn", "http://a/" + m)) for m in ms))
+    for n in (2, 3, 4):
+        ms = ["m%d" % i for i in range(1, n + 1)]
+        recs = (ent("c"),) + tuple(ent(m) for m in ms) + (mem("c", ms),)
+        items.append(("mdoc", (("mdoc", (recs, ())),)))
+        items.append(("mdoc", (("mdoc", ((mem("c", ms),), ())),)))
+        items.append(("mdoc", (("mdoc", ((mem("c", ms), mem("c2", ms[:2])), ())),)))
+        items.append(("mdoc", (("mdoc", ((ent("c"),), (("http://a/b1", (mem("c", ms),)),))),)))
     out2 = explore.pmap(__name__, tier, {}, "family_case", items, chunk=8)
     out.merge(out2)
     nscript = {"quick": 12, "thorough": 40}[tier]
